@@ -39,7 +39,10 @@ func liveHeap() uint64 {
 func metricsCase(s *session, n int) {
 	u := s.u
 	realReporterOnce.Do(func() { realReporter = metricsreporter.New() })
-	v := validation.NewMessageValidator(u.netCfg, validation.WithNodeStorage(u.ns), validation.WithDutyStore(u.duties),
+	// ValidatePubsubMessage reads the real clock; keep the unsigned era whatever the date is
+	netCfg := u.netCfg
+	netCfg.PermissionlessActivationEpoch = 1 << 62
+	v := validation.NewMessageValidator(netCfg, validation.WithNodeStorage(u.ns), validation.WithDutyStore(u.duties),
 		validation.WithMetrics(realReporter))
 	sc := newScene(u, hx.NewRand(1, "metrics", 0))
 	sc.val, sc.role, sc.signed, sc.p2p = u.vals[0], spectypes.BNRoleAttester, false, true
